@@ -1,8 +1,11 @@
 package props
 
 import (
+	"bufio"
 	"fmt"
 	"io"
+	"os"
+	"os/exec"
 	"time"
 
 	"pault.ag/go/debian/changelog"
@@ -82,19 +85,28 @@ var totalImpl = map[string]core.Adapter{}
 func init() {
 	totalImpl["law-concurrent"] = lawConcurrent
 	// law: what changelog.Parse makes of a text does not depend on the process's local time zone.
-	// args: text (hex)
-	core.ExclusiveOps["law-clzone"] = true
+	// time.Local cannot be changed under running parsers without a data race (a straggler of an
+	// operation the watchdog gave up on may still be reading it), so each zone gets a child process
+	// of this binary (`vcheck --clzone`, zone in VERIF_LOCAL_ZONE).  args: text (hex)
 	totalImpl["law-clzone"] = func(a []string) string {
-		text := core.MustUnHex(a[0])
-		defer func(l *time.Location) { time.Local = l }(time.Local)
-		var first string
-		for i, loc := range []*time.Location{time.UTC, time.FixedZone("EST", -5*3600), time.FixedZone("CET", 3600), time.FixedZone("PST", -8*3600)} {
-			time.Local = loc
-			got := clResult(changelog.Parse(strings.NewReader(text)))
+		exe, err := os.Executable()
+		if err != nil {
+			return "ok"
+		}
+		var first, firstZone string
+		for i, z := range []string{"UTC:0", "EST:-18000", "CET:3600", "PST:-28800"} {
+			cmd := exec.Command(exe, "--clzone")
+			cmd.Env = append(append([]string{}, core.OrigEnv...), "VERIF_LOCAL_ZONE="+z)
+			cmd.Stdin = strings.NewReader(a[0] + "\n")
+			out, err := cmd.Output()
+			if err != nil {
+				return "ok" // the child could not be run: nothing is concluded
+			}
+			got := strings.TrimSpace(string(out))
 			if i == 0 {
-				first = got
+				first, firstZone = got, z
 			} else if got != first {
-				return fmt.Sprintf("FAIL the result depends on the local zone: in UTC %s, in %s %s", clipStr(first, 300), loc, clipStr(got, 300))
+				return fmt.Sprintf("FAIL the result depends on the local zone: with %s %s, with %s %s", firstZone, clipStr(first, 300), z, clipStr(got, 300))
 			}
 		}
 		return "ok"
@@ -458,4 +470,15 @@ func init() {
 			return fmt.Sprintf("%s(%q)", op, clipStr(core.MustUnHex(last), 200))
 		},
 	})
+}
+
+// ClzoneChild is the body of `vcheck --clzone`: hex-encoded changelog texts on stdin, one per line;
+// the parse result of each on stdout (the local zone was set from VERIF_LOCAL_ZONE at start-up).
+func ClzoneChild() {
+	sc := bufio.NewScanner(os.Stdin)
+	sc.Buffer(make([]byte, 1<<20), 1<<30)
+	for sc.Scan() {
+		text := core.MustUnHex(strings.TrimSpace(sc.Text()))
+		fmt.Println(clResult(changelog.Parse(strings.NewReader(text))))
+	}
 }
